@@ -381,8 +381,8 @@ def conditioner_cases(draw):
 
 def run(ctx):
     q = ctx.tier == "quick"
-    run_hypothesis(ctx, expr_cases(), oracle, 60 if q else 800, "C12-wrapper-expressions")
-    run_hypothesis(ctx, bc.leaf_cases(inv=False), oracle, 25 if q else 400, "C12-methods-leaves")
-    run_hypothesis(ctx, bc.flow_cases(), oracle, 4 if q else 60, "C12-methods-flows")
-    run_hypothesis(ctx, frozen_cases(), oracle, 12 if q else 200, "C12-frozen")
+    run_hypothesis(ctx, expr_cases(), oracle, 60 if q else 500, "C12-wrapper-expressions")
+    run_hypothesis(ctx, bc.leaf_cases(inv=False), oracle, 25 if q else 250, "C12-methods-leaves")
+    run_hypothesis(ctx, bc.flow_cases(), oracle, 4 if q else 30, "C12-methods-flows")
+    run_hypothesis(ctx, frozen_cases(), oracle, 12 if q else 120, "C12-frozen")
     run_hypothesis(ctx, conditioner_cases(), oracle, 12 if q else 150, "C12-conditioner")
